@@ -233,11 +233,13 @@ theorem isHOverlapping_disjoint {a b : Box} (ha : a.left < a.right) (hb : b.left
     simp only [overlapLen]; split <;> omega
   have m1 : min (a.right - a.left) (b.right - b.left) > 0 := by omega
   have m2 : min (b.right - b.left) (a.right - a.left) > 0 := by omega
+  -- the one fact about the regenerated threshold that is used: it is not negative
+  have hp := consts_region_overlap_threshold_nonneg.1
   constructor
-  · simp only [isHOverlapping, Box.width, w1, w2, false_and, if_false, o1, ratGt, m1, if_true]
-    simp only [decide_eq_false_iff_not]; omega
-  · simp only [isHOverlapping, Box.width, w1, w2, false_and, if_false, o2, ratGt, m2, if_true]
-    simp only [decide_eq_false_iff_not]; omega
+  · simp only [isHOverlapping, Box.width, w1, w2, false_and, if_false, o1]
+    exact ratGt_zero hp m1
+  · simp only [isHOverlapping, Box.width, w1, w2, false_and, if_false, o2]
+    exact ratGt_zero hp m2
 
 theorem columns_order {cs : List Reg} (hc : CleanColumns cs) :
     StrictTotalOn regionLt cs ∧ cs.Pairwise (fun a b => regionLt a b = true) := by
